@@ -412,6 +412,7 @@ namespace sim
 	struct SIMULATOR_DECL basic_resolver
 	{
 		basic_resolver(io_context& ios);
+		~basic_resolver();
 
 		using protocol_type = Protocol;
 		using results_type = std::vector<basic_resolver_entry<Protocol>, aux::mallocator<basic_resolver_entry<Protocol>>>;
@@ -432,6 +433,9 @@ namespace sim
 	private:
 
 		void on_lookup(boost::system::error_code const& ec);
+
+		// (re-)arm m_timer for the first queued lookup
+		void arm_timer();
 
 		struct result_t
 		{
@@ -464,6 +468,10 @@ namespace sim
 		using queue_t = aux::noexcept_movable<std::vector<result_t>>;
 
 		queue_t m_queue;
+
+		// cleared by the destructor. A timer completion that was already
+		// queued when the resolver was destroyed must not touch it
+		std::shared_ptr<bool> m_alive = std::make_shared<bool>(true);
 	};
 
 	struct SIMULATOR_DECL udp
